@@ -262,3 +262,50 @@ def with_replay(gs, rp):
         if g.replay is None:
             g.replay = rp
     return gs
+
+PRF_SRC = "src/mac/ascon-prf.c"
+
+
+def prf_l2_groups(prefix, props, cfg="C64"):
+    gs = []
+    base = ["ascon_permute"]
+    specs = [("prf_fixed_init", "ascon_prf_fixed_init", base, []),
+             ("prf_init", "ascon_prf_init", base, []),
+             ("prf", "ascon_prf", base + ["ascon_prf_absorb", "ascon_prf_squeeze"], ["VERIF_FN=ascon_prf"]),
+             ("prf_fixed", "ascon_prf_fixed", base + ["ascon_prf_absorb", "ascon_prf_squeeze"], ["VERIF_FN=ascon_prf_fixed"]),
+             ("mac", "ascon_mac", base + ["ascon_prf_absorb", "ascon_prf_squeeze"], []),
+             ("mac_verify", "ascon_mac_verify", base + ["ascon_prf_absorb", "ascon_prf_squeeze", "ascon_aead_check_tag"], []),
+             ("prf_short", "ascon_prf_short", base, [])]
+    for op, f, repl, extra in specs:
+        srcs = [PRF_SRC, BACKEND_SRC[cfg], "src/core/ascon-clean.c"] + ([AEAD_COMMON] if op == "mac_verify" else [])
+        gs.append(Group("%s.l2.%s.%s" % (prefix, f, cfg), props, "harness/h_prf_l2.c", "h_prf_l2", srcs, cfg=cfg, enforce=f,
+                        replace=repl, defs=["VERIF_ENFORCE_" + op, "VERIF_ABSTRACT_P", "VERIF_L1_SUMMARY"] + extra,
+                        contracts=["contracts/c_permute_abstract.h", "contracts/c_prf_l2.h"], drop_unused=True, unwind=42,
+                        timeout=900, expect_classes=["postcondition", "assigns"]))
+    return gs
+
+XOF_RENAME = ["ascon_xof_absorb=verif_real_xof_absorb", "ascon_xof_squeeze=verif_real_xof_squeeze"]
+XOFA_RENAME = ["ascon_xofa_absorb=verif_real_xofa_absorb", "ascon_xofa_squeeze=verif_real_xofa_squeeze"]
+
+
+def hmac_l2_groups(prefix, props, cfg="C64", tier="quick"):
+    """HMAC / HMACA against RFC 2104: plain-assertion groups (the postcondition of the contract is asserted by the
+    harness; callees are specification stubs), one constant key length per group."""
+    gs = []
+    for alg, hsrc, xsrc, ren, hiv, pp, ta, T, hinit in (
+            ("hmac", "src/hash/ascon-hash.c", "src/hash/ascon-xof.c", XOF_RENAME, "0x00400c00u", "SPEC_XOF", "11u", "ascon_hmac_state_t", "ascon_hash_init"),
+            ("hmaca", "src/hash/ascon-hasha.c", "src/hash/ascon-xofa.c", XOFA_RENAME, "0x00400c04u", "SPEC_XOFA", "13u", "ascon_hmaca_state_t", "ascon_hasha_init")):
+        for op, f in (("hmac", "ascon_%s" % alg), ("hmac_init", "ascon_%s_init" % alg), ("hmac_reinit", "ascon_%s_reinit" % alg),
+                      ("hmac_finalize", "ascon_%s_finalize" % alg)):
+            klens = [0, 1, 31, 32, 33, 63, 64, 65, 100] if tier == "quick" else list(range(0, 67)) + [100, 1000]
+            for kl in klens:
+                for iname, idefs in ((("long", []), ("in0", ["VERIF_INLEN=0"]), ("in5", ["VERIF_INLEN=5"])) if op == "hmac" else
+                                     (("c0", ["VERIF_INNER_COUNT=0"]), ("c5", ["VERIF_INNER_COUNT=5"])) if op == "hmac_finalize" else (("", []),)):
+                    gs.append(Group("%s.l2.%s.key%d%s.%s" % (prefix, f, kl, ("." + iname) if iname else "", cfg), props,
+                                    "harness/h_hmac_l2.c", "h_hmac_l2",
+                                    ["src/mac/ascon-%s.c" % alg, (hsrc, [hinit + "=verif_real_" + hinit, hinit.replace("_init", "_reinit") + "=verif_real_" + hinit.replace("_init", "_reinit")]), (xsrc, ren), BACKEND_SRC[cfg],
+                                     "src/core/ascon-clean.c"], cfg=cfg, functions=[f],
+                                    defs=["VERIF_PLAIN", "VERIF_ENFORCE_" + op, "VERIF_FN=" + f, "VERIF_T=" + T, "HIV=" + hiv, "HPARAMS=" + pp,
+                                          "HTAG_ABSORB=" + ta, "VERIF_ABSTRACT_P", "VERIF_L1_SUMMARY", "VERIF_KEYLEN=%d" % kl] + idefs,
+                                    drop_unused=True, unwind=66, timeout=900, expect_classes=["assertion"]))
+    return gs
